@@ -111,6 +111,11 @@ func objCorpus() []any {
 	out = append(out, one(rs(w2l), upd(rs(w2o), rs(w2t)), upd(rs(w2t), rs(w2u))))
 	// --force on a built-in kind: exactly the manifest (foreign container and label gone)
 	out = append(out, one(rs(l1), objStep{Verb: "update", Force: true, Orig: rs(o1), Tgt: rs(t1)}))
+	// the manifest entry moves from apps/v1beta2 to apps/v1 (and back): the same object, patched from its old entry,
+	// not deleted as "removed from the manifest" (ResourceList matching ignores the version; seeded C02-7)
+	o1b, t1b := o1, t1
+	o1b.Ver = "v1beta2"
+	out = append(out, one(rs(l1), upd(rs(o1b), rs(t1b)), upd(rs(t1b), rs(o1b))))
 	// create, out-of-band edit, update, dropped resource with and without live keep policy, delete
 	kept := oWidget("w2", jm{"size": float64(1)}, jm{"annotations": jm{"helm.sh/resource-policy": "keep"}})
 	out = append(out, one(nil,
